@@ -472,17 +472,6 @@ Proof.
   rewrite pip_parity. unfold spec_inside. apply parity_ext_in. exact HA.
 Qed.
 
-(* ---- finite sweep: see Proofs/C15_sweep.v ----------------------------------- *)
-Lemma lists_of_complete {A} (xs : list A) n l :
-  length l = n -> Forall (fun x => In x xs) l -> In l (lists_of n xs).
-Proof.
-  revert l; induction n as [|n IH]; intros l Hl Hf.
-  - destruct l; [now left|discriminate].
-  - destruct l as [|a l]; [discriminate|]. simpl. apply in_flat_map.
-    inversion Hf; subst. exists l. split; [apply IH; auto|].
-    apply in_map_iff. exists a. auto.
-Qed.
-
 (* ---- non-vacuity ---------------------------------------------------------- *)
 Definition ex_square : list pt := [(0, 0); (0, 1); (1, 1); (1, 0)].
 (* self-intersecting "bow tie" with a repeated vertex *)
